@@ -240,30 +240,33 @@ func (e *c27Env) callsTo(fn *ssa.Function, name string) []*ssa.Call {
 
 // notFoundEdges: edges of fn on which the error result of `lookup` is known to
 // be the not-found sentinel (errors.Is(err, ErrRateNotFound) true, or err ==
-// ErrRateNotFound).
+// ErrRateNotFound), directly or through a one-line in-module predicate helper.
 func (e *c27Env) notFoundEdges(fn *ssa.Function, lookup *ssa.Call) []an.Edge {
 	errIdx := an.ErrResultIndex(lookup)
 	isErr := func(v ssa.Value) bool {
 		ss := e.w.Sources(v, an.FlowOpts{})
 		return len(ss.Leaves) == 1 && c27LeafIsCall(ss.Leaves[0], lookup, errIdx)
 	}
-	isSentinel := func(v ssa.Value) bool {
-		ss := e.w.Sources(v, an.FlowOpts{})
-		return len(ss.Leaves) == 1 && ss.Leaves[0].Kind == "global" && ss.Leaves[0].Name == e.errNF
-	}
 	var out []an.Edge
 	for _, f := range e.w.Facts(fn) {
 		switch {
-		case f.Rel == "true":
+		case f.Rel == "true" || f.Rel == "false":
 			call, ok := f.Cond.(*ssa.Call)
-			if !ok || e.w.Info(call).Name != "func:errors.Is" || len(call.Call.Args) != 2 {
+			if !ok {
 				continue
 			}
-			if isErr(call.Call.Args[0]) && isSentinel(call.Call.Args[1]) {
-				out = append(out, f.Edge)
+			switch inf := e.w.Info(call); {
+			case inf.Name == "func:errors.Is" && len(call.Call.Args) == 2:
+				if f.Rel == "true" && isErr(call.Call.Args[0]) && e.isSentinel(call.Call.Args[1]) {
+					out = append(out, f.Edge)
+				}
+			case inf.Static != nil && e.w.InModule(inf.Static) && inf.Static.Blocks != nil:
+				if idx, neg, ok := e.notFoundPredicate(inf.Static); ok && idx < len(call.Call.Args) && isErr(call.Call.Args[idx]) && (f.Rel == "true") != neg {
+					out = append(out, f.Edge)
+				}
 			}
 		case f.NonNum && f.Rel == "==" && f.LV != nil && f.RV != nil:
-			if (isErr(f.LV) && isSentinel(f.RV)) || (isErr(f.RV) && isSentinel(f.LV)) {
+			if (isErr(f.LV) && e.isSentinel(f.RV)) || (isErr(f.RV) && e.isSentinel(f.LV)) {
 				out = append(out, f.Edge)
 			}
 		}
@@ -271,17 +274,187 @@ func (e *c27Env) notFoundEdges(fn *ssa.Function, lookup *ssa.Call) []an.Edge {
 	return out
 }
 
+func (e *c27Env) isSentinel(v ssa.Value) bool {
+	ss := e.w.Sources(v, an.FlowOpts{})
+	return len(ss.Leaves) == 1 && ss.Leaves[0].Kind == "global" && ss.Leaves[0].Name == e.errNF
+}
+
+// notFoundPredicate recognises `func(err ...) bool { return [!]errors.Is(err, ErrRateNotFound) }`
+// (or `err == ErrRateNotFound`): which parameter is tested and whether the answer is negated.
+func (e *c27Env) notFoundPredicate(fn *ssa.Function) (idx int, negated, ok bool) {
+	rets := an.Returns(fn)
+	if len(rets) != 1 || len(rets[0].Results) != 1 {
+		return 0, false, false
+	}
+	v := rets[0].Results[0]
+	for {
+		u, isU := v.(*ssa.UnOp)
+		if !isU || u.Op != token.NOT {
+			break
+		}
+		negated = !negated
+		v = u.X
+	}
+	var errV, sentV ssa.Value
+	switch x := v.(type) {
+	case *ssa.Call:
+		if e.w.Info(x).Name != "func:errors.Is" || len(x.Call.Args) != 2 {
+			return 0, false, false
+		}
+		errV, sentV = x.Call.Args[0], x.Call.Args[1]
+	case *ssa.BinOp:
+		switch {
+		case x.Op == token.EQL:
+		case x.Op == token.NEQ:
+			negated = !negated
+		default:
+			return 0, false, false
+		}
+		errV, sentV = x.X, x.Y
+		if e.isSentinel(errV) {
+			errV, sentV = sentV, errV
+		}
+	default:
+		return 0, false, false
+	}
+	if !e.isSentinel(sentV) {
+		return 0, false, false
+	}
+	for i := range fn.Params {
+		if e.isParam(errV, fn, i) {
+			return i, negated, true
+		}
+	}
+	return 0, false, false
+}
+
 func c27EdgesDominate(es []an.Edge, b *ssa.BasicBlock) bool {
 	return len(es) > 0 && an.EdgesDominate(es, b)
+}
+
+// c27RetCase is one way a return hands out its results: the results themselves,
+// or — when they are phis of the returning block ("result selected into a local,
+// returned once") — the incoming values of one predecessor, judged at that
+// predecessor plus the edge into the returning block.
+type c27RetCase struct {
+	vals  []ssa.Value
+	block *ssa.BasicBlock
+	edge  *an.Edge
+	ret   *ssa.Return
+}
+
+func c27ExpandReturn(r *ssa.Return) []c27RetCase {
+	var out []c27RetCase
+	var rec func(vals []ssa.Value, block *ssa.BasicBlock, edge *an.Edge, depth int)
+	rec = func(vals []ssa.Value, block *ssa.BasicBlock, edge *an.Edge, depth int) {
+		split := false
+		for _, v := range vals {
+			if ph, ok := v.(*ssa.Phi); ok && ph.Block() == block && depth < 4 {
+				split = true
+			}
+		}
+		if !split {
+			out = append(out, c27RetCase{vals: vals, block: block, edge: edge, ret: r})
+			return
+		}
+		for i, pred := range block.Preds {
+			nv := make([]ssa.Value, len(vals))
+			for j, v := range vals {
+				nv[j] = v
+				if ph, ok := v.(*ssa.Phi); ok && ph.Block() == block && i < len(ph.Edges) {
+					nv[j] = ph.Edges[i]
+				}
+			}
+			idx := 0
+			for k, sc := range pred.Succs {
+				if sc == block {
+					idx = k
+				}
+			}
+			rec(nv, pred, &an.Edge{From: pred, Idx: idx}, depth+1)
+		}
+	}
+	rec(r.Results, r.Block(), nil, 0)
+	return out
+}
+
+// domAt: every path into the case passes one of the edges.
+func (rc c27RetCase) domAt(es []an.Edge) bool {
+	if len(es) == 0 {
+		return false
+	}
+	if rc.edge != nil {
+		for _, x := range es {
+			if x == *rc.edge {
+				return true
+			}
+		}
+	}
+	return an.EdgesDominate(es, rc.block)
+}
+
+// factsAt: the facts that hold when the case is taken.
+func (e *c27Env) factsAt(rc c27RetCase) []an.Fact {
+	fs := append([]an.Fact{}, e.w.FactsDominatingBlock(rc.block)...)
+	if rc.edge != nil {
+		fs = append(fs, e.edgeFacts(rc.edge.From, rc.edge.To())...)
+	}
+	return fs
+}
+
+// uninterpretedGuard: the case is guarded by the answer of an in-module (or
+// dynamically dispatched) predicate over one of the given calls' results that
+// the rule did not look into — a negative verdict would only say "I could not
+// interpret the guard". Predicates over unrelated values do not count.
+func (e *c27Env) uninterpretedGuard(rc c27RetCase, about ...*ssa.Call) string {
+	return e.uninterpretedIn(e.factsAt(rc), about...)
+}
+
+func (e *c27Env) uninterpretedIn(fs []an.Fact, about ...*ssa.Call) string {
+	relevant := func(v ssa.Value) bool {
+		ss := e.w.Sources(v, an.FlowOpts{ThroughCalls: map[string]bool{"func:(*premium.PremiumRate).PremiumRatePPM": true}})
+		for _, l := range ss.Leaves {
+			for _, c := range about {
+				if l.Kind == "call" && l.Call == c {
+					return true
+				}
+			}
+		}
+		return false
+	}
+	for _, f := range fs {
+		if f.Rel != "true" && f.Rel != "false" {
+			continue
+		}
+		call, ok := f.Cond.(*ssa.Call)
+		if !ok {
+			continue
+		}
+		inf := e.w.Info(call)
+		if !((inf.Static != nil && e.w.InModule(inf.Static)) || (inf.Static == nil && !strings.HasPrefix(inf.Name, "builtin:"))) {
+			continue
+		}
+		args := append([]ssa.Value{}, call.Call.Args...)
+		if call.Call.IsInvoke() {
+			args = append(args, call.Call.Value)
+		}
+		for _, a := range args {
+			if relevant(a) {
+				return inf.Name
+			}
+		}
+	}
+	return ""
 }
 
 // ---- R1 ------------------------------------------------------------------------------------
 
 // resolverReturns checks every return of a two-level resolver function.
 // lookup is the store call; isFallback recognises the leaf that stands for the
-// next level and validates it (returns "" when fine, else the defect).
+// next level and validates it (defect "" when fine; definite tells whether the
+// defect is established or only "not understood").
 func (e *c27Env) resolverReturns(fn *ssa.Function, lookup *ssa.Call, level string,
-	isFallback func(l an.Src) (bool, string)) (nPrim, nFb int) {
+	isFallback func(l an.Src) (is bool, defect string, definite bool)) (nPrim, nFb int) {
 	c, w := e.c, e.w
 	name := w.FuncName(fn)
 	errIdx := an.ErrResultIndex(lookup)
@@ -293,77 +466,129 @@ func (e *c27Env) resolverReturns(fn *ssa.Function, lookup *ssa.Call, level strin
 			continue
 		}
 		pos := w.Pos(r.Pos())
-		rate := w.Sources(r.Results[0], an.FlowOpts{})
-		errS := w.Sources(r.Results[1], an.FlowOpts{})
-		var prim, fb, none, other int
-		var fbLeaf an.Src
-		fbDefect := ""
-		for _, l := range rate.Leaves {
-			switch {
-			case c27LeafIsCall(l, lookup, 0):
-				prim++
-			case l.Kind == "zero":
-				none++
-			default:
-				if is, defect := isFallback(l); is {
-					fb++
-					fbLeaf = l
-					if defect != "" {
-						fbDefect = defect
+		for _, rc := range c27ExpandReturn(r) {
+			rate := w.Sources(rc.vals[0], an.FlowOpts{})
+			errS := w.Sources(rc.vals[1], an.FlowOpts{})
+			var prim, fb, none, other int
+			var fbLeaf an.Src
+			fbDefect, fbDefinite := "", false
+			for _, l := range rate.Leaves {
+				switch {
+				case c27LeafIsCall(l, lookup, 0):
+					prim++
+				case l.Kind == "zero":
+					none++
+				default:
+					if is, defect, definite := isFallback(l); is {
+						fb++
+						fbLeaf = l
+						if defect != "" {
+							fbDefect, fbDefinite = defect, definite
+						}
+					} else {
+						other++
 					}
-				} else {
-					other++
 				}
 			}
-		}
-		switch {
-		case other > 0 || (prim > 0 && fb > 0) || len(rate.Leaves) == 0:
-			c.Unknown("C27.R1", name+" return of an unrecognised rate", pos, "returned rate has sources "+strings.Join(rate.Names(), ", ")+" — shape not supported")
-		case prim > 0:
-			nPrim++
-			// stored rate: error must be nil under the ok edge, or the lookup error itself
-			cons := name + " return of the stored rate"
-			errIsLookup := len(errS.Leaves) > 0 && errS.OnlyFrom(func(l an.Src) bool { return c27LeafIsCall(l, lookup, errIdx) })
-			errIsNil := len(errS.Leaves) > 0 && errS.OnlyFrom(func(l an.Src) bool { return l.Kind == "zero" })
 			switch {
-			case errIsLookup:
-				c.OK("C27.R1", cons, pos, "returns the store result together with the store error")
-			case errIsNil && c27EdgesDominate(okEdges, r.Block()):
-				c.OK("C27.R1", cons, pos, "stored rate returned with a nil error on the err==nil edge of the lookup")
-			case errIsNil:
-				c.Bad("C27.R1", cons, pos, "the stored-rate result is returned with a nil error on a path where the lookup error was not tested to be nil: a store error other than ErrRateNotFound is swallowed and a nil rate is handed to the caller")
-			default:
-				c.Unknown("C27.R1", cons, pos, "error result has sources "+strings.Join(errS.Names(), ", "))
-			}
-		case fb > 0:
-			nFb++
-			cons := name + " fallback to " + level
-			switch {
-			case fbDefect != "":
-				c.Bad("C27.R1", cons, pos, fbDefect)
-			case !c27EdgesDominate(nf, r.Block()):
-				c.Bad("C27.R1", cons, pos, "the fallback to "+level+" is not restricted to the edge on which the lookup error is ErrRateNotFound: any store error (corrupt value, missing bucket) silently yields "+level+" instead of propagating. Facts that do hold: "+an.DescribeFacts(w.FactsDominatingBlock(r.Block())))
-			default:
-				// the error returned with the fallback must be the fallback's own error
-				fromSame := len(errS.Leaves) > 0 && errS.OnlyFrom(func(l an.Src) bool {
-					return l.Kind == "call" && l.Call == fbLeaf.Call && l.Idx == an.ErrResultIndex(fbLeaf.Call)
-				})
-				if fromSame {
-					c.OK("C27.R1", cons, pos, "fallback only under errors.Is(err, ErrRateNotFound); its error is returned")
-				} else {
-					c.Bad("C27.R1", cons, pos, "the error of the fallback is not returned with its rate (sources: "+strings.Join(errS.Names(), ", ")+"): a failing fallback yields (nil, nil)")
+			case other > 0 || (prim > 0 && fb > 0) || len(rate.Leaves) == 0:
+				c.Unknown("C27.R1", name+" return of an unrecognised rate", pos, "returned rate has sources "+strings.Join(rate.Names(), ", ")+" — shape not supported")
+			case prim > 0:
+				nPrim++
+				// stored rate: error must be nil under the ok edge, or the lookup error itself
+				cons := name + " return of the stored rate"
+				errIsLookup := len(errS.Leaves) > 0 && errS.OnlyFrom(func(l an.Src) bool { return c27LeafIsCall(l, lookup, errIdx) })
+				errIsNil := len(errS.Leaves) > 0 && errS.OnlyFrom(func(l an.Src) bool { return l.Kind == "zero" })
+				switch {
+				case errIsLookup:
+					c.OK("C27.R1", cons, pos, "returns the store result together with the store error")
+				case errIsNil && rc.domAt(okEdges):
+					c.OK("C27.R1", cons, pos, "stored rate returned with a nil error on the err==nil edge of the lookup")
+				case errIsNil && e.uninterpretedGuard(rc, lookup) != "":
+					c.Unknown("C27.R1", cons, pos, "the stored rate is returned with a nil error under the predicate "+e.uninterpretedGuard(rc, lookup)+", which the rule does not interpret")
+				case errIsNil:
+					c.Bad("C27.R1", cons, pos, "the stored-rate result is returned with a nil error on a path where the lookup error was not tested to be nil: a store error other than ErrRateNotFound is swallowed and a nil rate is handed to the caller")
+				default:
+					c.Unknown("C27.R1", cons, pos, "error result has sources "+strings.Join(errS.Names(), ", "))
 				}
-			}
-		default: // only nil rate
-			cons := name + " error return"
-			if len(errS.Leaves) > 0 && errS.OnlyFrom(func(l an.Src) bool { return l.Kind == "call" }) {
-				c.OK("C27.R1", cons, pos, "nil rate is returned only together with an error value")
-			} else {
-				c.Bad("C27.R1", cons, pos, "a nil rate can be returned with a nil error (error sources: "+strings.Join(errS.Names(), ", ")+")")
+			case fb > 0:
+				nFb++
+				cons := name + " fallback to " + level
+				switch {
+				case fbDefect != "" && fbDefinite:
+					c.Bad("C27.R1", cons, pos, fbDefect)
+				case fbDefect != "":
+					c.Unknown("C27.R1", cons, pos, fbDefect)
+				case !rc.domAt(nf) && e.uninterpretedGuard(rc, lookup) != "":
+					c.Unknown("C27.R1", cons, pos, "the fallback to "+level+" is guarded by "+e.uninterpretedGuard(rc, lookup)+", which the rule does not interpret")
+				case !rc.domAt(nf):
+					c.Bad("C27.R1", cons, pos, "the fallback to "+level+" is not restricted to the edge on which the lookup error is ErrRateNotFound: any store error (corrupt value, missing bucket) silently yields "+level+" instead of propagating. Facts that do hold: "+an.DescribeFacts(e.factsAt(rc)))
+				default:
+					// the error returned with the fallback must be the fallback's own error
+					fromSame := len(errS.Leaves) > 0 && errS.OnlyFrom(func(l an.Src) bool {
+						return l.Kind == "call" && l.Call == fbLeaf.Call && l.Idx == an.ErrResultIndex(fbLeaf.Call)
+					})
+					isNil := len(errS.Leaves) > 0 && errS.OnlyFrom(func(l an.Src) bool { return l.Kind == "zero" })
+					switch {
+					case fromSame:
+						c.OK("C27.R1", cons, pos, "fallback only under errors.Is(err, ErrRateNotFound); its error is returned")
+					case isNil:
+						c.Bad("C27.R1", cons, pos, "the error of the fallback is dropped (nil is returned with its rate): a failing fallback yields (nil, nil)")
+					default:
+						c.Unknown("C27.R1", cons, pos, "cannot identify the error returned with the fallback rate: "+strings.Join(errS.Names(), ", "))
+					}
+				}
+			default: // only nil rate
+				cons := name + " error return"
+				hasNil := false
+				for _, l := range errS.Leaves {
+					if l.Kind == "zero" {
+						hasNil = true
+					}
+				}
+				switch {
+				case len(errS.Leaves) > 0 && errS.OnlyFrom(func(l an.Src) bool { return l.Kind == "call" }):
+					c.OK("C27.R1", cons, pos, "nil rate is returned only together with an error value")
+				case hasNil:
+					c.Bad("C27.R1", cons, pos, "a nil rate can be returned with a nil error (error sources: "+strings.Join(errS.Names(), ", ")+")")
+				default:
+					c.Unknown("C27.R1", cons, pos, "cannot identify the error returned with a nil rate: "+strings.Join(errS.Names(), ", "))
+				}
 			}
 		}
 	}
 	return nPrim, nFb
+}
+
+// argOrder: args[i] must be parameter want[i] of fn (-1 = not checked). Bad only
+// when every checked argument IS a parameter of fn but a different one (a
+// positively established mix-up); anything the rule cannot trace is Unknown.
+func (e *c27Env) argOrder(rule, cons, pos string, fn *ssa.Function, args []ssa.Value, want []int, okText, badText string) bool {
+	if len(args) != len(want) {
+		e.c.Unknown(rule, cons, pos, "unexpected argument count")
+		return false
+	}
+	good, mixed := true, false
+	for i, wi := range want {
+		if wi < 0 || e.isParam(args[i], fn, wi) {
+			continue
+		}
+		good = false
+		for j := range fn.Params {
+			if j != wi && e.isParam(args[i], fn, j) {
+				mixed = true
+			}
+		}
+	}
+	switch {
+	case good:
+		e.c.OK(rule, cons, pos, okText)
+	case mixed:
+		e.c.Bad(rule, cons, pos, badText)
+	default:
+		e.c.Unknown(rule, cons, pos, "cannot trace the arguments to this call's parameters: "+badText)
+	}
+	return good
 }
 
 // tableLookup: v is DefaultPremiumRate[a][o] (value result); returns a, o.
@@ -400,26 +625,27 @@ func (e *c27Env) r1() {
 	if fn := e.fn("premium", "(*Setting).GetRate"); fn != nil {
 		name := w.FuncName(fn)
 		look := e.callsTo(fn, "func:(*premium.BBoltPremiumStore).GetRate")
-		if len(look) == 0 {
+		if len(look) == 0 && w.Summary(fn).HasEffect("func:(*premium.BBoltPremiumStore).GetRate") {
+			c.Unknown("C27.R1", name+" store lookup", w.Pos(fn.Pos()), "the store lookup happens in a helper of GetRate; the return analysis does not follow it")
+		} else if len(look) == 0 {
 			c.Bad("C27.R1", name+" store lookup", w.Pos(fn.Pos()), "the peer-specific rate is never looked up in the store: a configured peer rate is ignored")
 		} else if len(look) != 1 {
 			c.Unknown("C27.R1", name+" store lookup", w.Pos(fn.Pos()), fmt.Sprintf("%d calls of the store lookup, expected one", len(look)))
 		} else {
 			l := look[0]
 			a := l.Call.Args
-			c.Decide(len(a) == 4 && e.isParam(a[1], fn, 1) && e.isParam(a[2], fn, 2) && e.isParam(a[3], fn, 3),
-				"C27.R1", name+" store lookup arguments", w.Pos(l.Pos()),
+			e.argOrder("C27.R1", name+" store lookup arguments", w.Pos(l.Pos()), fn, a, []int{-1, 1, 2, 3},
 				"store is asked for (peer, asset, operation) in parameter order",
-				"the store lookup does not receive (peerID, asset, operation) in that order")
-			count(e.resolverReturns(fn, l, "the default rate", func(s an.Src) (bool, string) {
+				"the store lookup does not receive this call's (peerID, asset, operation)")
+			count(e.resolverReturns(fn, l, "the default rate", func(s an.Src) (bool, string, bool) {
 				if s.Kind != "call" || s.Call == nil || w.Info(s.Call).Name != "func:(*premium.Setting).GetDefaultRate" || s.Idx != 0 {
-					return false, ""
+					return false, "", false
 				}
 				fa := s.Call.Call.Args
 				if len(fa) == 3 && e.isParam(fa[0], fn, 0) && e.isParam(fa[1], fn, 2) && e.isParam(fa[2], fn, 3) {
-					return true, ""
+					return true, "", false
 				}
-				return true, "GetDefaultRate is not called with this Setting and (asset, operation) in parameter order"
+				return true, "cannot establish that GetDefaultRate is called with this Setting and this call's (asset, operation)", false
 			}))
 		}
 	}
@@ -428,37 +654,38 @@ func (e *c27Env) r1() {
 	if fn := e.fn("premium", "(*Setting).GetDefaultRate"); fn != nil {
 		name := w.FuncName(fn)
 		look := e.callsTo(fn, "func:(*premium.BBoltPremiumStore).GetDefaultRate")
-		if len(look) == 0 {
+		if len(look) == 0 && w.Summary(fn).HasEffect("func:(*premium.BBoltPremiumStore).GetDefaultRate") {
+			c.Unknown("C27.R1", name+" store lookup", w.Pos(fn.Pos()), "the store lookup happens in a helper of GetDefaultRate; the return analysis does not follow it")
+		} else if len(look) == 0 {
 			c.Bad("C27.R1", name+" store lookup", w.Pos(fn.Pos()), "the stored global rate is never looked up: a configured default rate is ignored")
 		} else if len(look) != 1 {
 			c.Unknown("C27.R1", name+" store lookup", w.Pos(fn.Pos()), fmt.Sprintf("%d calls of the store lookup, expected one", len(look)))
 		} else {
 			l := look[0]
 			a := l.Call.Args
-			c.Decide(len(a) == 3 && e.isParam(a[1], fn, 1) && e.isParam(a[2], fn, 2),
-				"C27.R1", name+" store lookup arguments", w.Pos(l.Pos()),
+			e.argOrder("C27.R1", name+" store lookup arguments", w.Pos(l.Pos()), fn, a, []int{-1, 1, 2},
 				"store is asked for (asset, operation) in parameter order",
-				"the default-rate lookup does not receive (asset, operation) in that order")
-			count(e.resolverReturns(fn, l, "the built-in table", func(s an.Src) (bool, string) {
+				"the default-rate lookup does not receive this call's (asset, operation)")
+			count(e.resolverReturns(fn, l, "the built-in table", func(s an.Src) (bool, string, bool) {
 				if s.Kind != "call" || s.Call == nil || w.Info(s.Call).Name != "func:premium.NewPremiumRate" || s.Idx != 0 {
-					return false, ""
+					return false, "", false
 				}
 				fa := s.Call.Call.Args
 				if len(fa) != 3 || !e.isParam(fa[0], fn, 1) || !e.isParam(fa[1], fn, 2) {
-					return true, "the built-in rate is not labelled with (asset, operation) in parameter order"
+					return true, "cannot establish that the built-in rate is labelled with this call's (asset, operation)", false
 				}
 				ppm, ok := c27Strip(fa[2]).(*ssa.Call)
 				if !ok || w.Info(ppm).Name != "func:premium.NewPPM" || len(ppm.Call.Args) != 1 {
-					return false, ""
+					return false, "", false
 				}
 				ka, ko, ok := e.tableLookup(ppm.Call.Args[0])
 				if !ok {
-					return false, ""
+					return false, "", false
 				}
 				if !e.isParam(ka, fn, 1) || !e.isParam(ko, fn, 2) {
-					return true, "the built-in table is not indexed [asset][operation] with this call's parameters"
+					return true, "cannot establish that the built-in table is indexed [asset][operation] with this call's parameters", false
 				}
-				return true, ""
+				return true, "", false
 			}))
 		}
 	}
@@ -496,8 +723,11 @@ func (e *c27Env) r1() {
 				fwd = false
 			}
 		}
-		c.Decide(fwd && e.isParam(calls[0].Call.Args[0], fn, 0), "C27.R1", w.FuncName(fn)+" forwards its arguments", w.Pos(calls[0].Pos()),
-			"arguments forwarded in order", "the default-rate wrapper does not forward its arguments in order")
+		if fwd && e.isParam(calls[0].Call.Args[0], fn, 0) {
+			c.OK("C27.R1", w.FuncName(fn)+" forwards its arguments", w.Pos(calls[0].Pos()), "arguments forwarded in order")
+		} else {
+			c.Unknown("C27.R1", w.FuncName(fn)+" forwards its arguments", w.Pos(calls[0].Pos()), "cannot establish that the default-rate wrapper forwards its own arguments")
+		}
 	}
 	if len(defKeys) == 2 {
 		c.Decide(defKeys[0] == defKeys[1] && defKeys[0] != "", "C27.R1", "default peer key", "premium/store.go",
@@ -560,17 +790,10 @@ func (e *c27Env) r1() {
 			c.Bad("C27.R1", cons, w.Pos(p.Pos()), fmt.Sprintf("%s performs bucket.%s, a persistent map needs bucket.%s here", spec.meth, m, spec.prim))
 			continue
 		}
-		// key argument <- fmt.Sprintf(format, a, b, c)
-		ks := w.Sources(p.Call.Args[1], an.FlowOpts{})
-		if len(ks.Leaves) != 1 || ks.Leaves[0].Kind != "call" || ks.Leaves[0].Call == nil || w.Info(ks.Leaves[0].Call).Name != "func:fmt.Sprintf" {
-			c.Unknown("C27.R1", cons, w.Pos(p.Pos()), "key is not the result of one fmt.Sprintf: "+strings.Join(ks.Names(), ", "))
-			continue
-		}
-		sp := ks.Leaves[0].Call
-		format, okF := an.ConstString(sp.Call.Args[0])
-		va := c27Varargs(sp)
-		if !okF || va == nil {
-			c.Unknown("C27.R1", cons, w.Pos(sp.Pos()), "key format is not a constant with a literal argument list")
+		// key argument <- fmt.Sprintf(format, a, b, c), possibly built by a key helper
+		format, va, sp, why := e.keyExpr(p.Call.Args[1], 0)
+		if why != "" {
+			c.Unknown("C27.R1", cons, w.Pos(p.Pos()), why)
 			continue
 		}
 		u.format = format
@@ -639,8 +862,11 @@ func (e *c27Env) r1() {
 									return (x.Kind == "field" && strings.HasSuffix(x.Name, "PPM.ppmValue")) || (x.Kind == "const" && x.Name == "0")
 								}) && s.HasPrefix("field", "")
 							}
-							c.Decide(okv, "C27.R1", w.FuncName(outer)+" stored value", w.Pos(l.Call.Pos()),
-								"the stored value is the ppm of the given rate", "the value written is not the ppm value of the rate argument")
+							if okv {
+								c.OK("C27.R1", w.FuncName(outer)+" stored value", w.Pos(l.Call.Pos()), "the stored value is the ppm of the given rate")
+							} else {
+								c.Unknown("C27.R1", w.FuncName(outer)+" stored value", w.Pos(l.Call.Pos()), "cannot trace the value written to the ppm value of the rate argument")
+							}
 						}
 					}
 				}
@@ -663,9 +889,13 @@ func (e *c27Env) r1() {
 		c.Decide(s.format == g.format && g.format == d.format && sameOrder && strings.Count(s.format, "%") == len(s.types), "C27.R1", "store key format", w.Pos(g.pos),
 			fmt.Sprintf("Set/Get/Delete share the key format %q over (%s)", g.format, strings.Join(g.types, ", ")),
 			fmt.Sprintf("keys differ: SetRate %q%v, GetRate %q%v, DeleteRate %q%v — a rate that was set is not found / not deleted", s.format, s.types, g.format, g.types, d.format, d.types))
-		c.Decide(s.bucket != "" && s.bucket == g.bucket && g.bucket == d.bucket, "C27.R1", "store bucket", w.Pos(g.pos),
-			fmt.Sprintf("Set/Get/Delete use bucket %q", g.bucket),
-			fmt.Sprintf("bucket names differ or are not constant: SetRate %q, GetRate %q, DeleteRate %q", s.bucket, g.bucket, d.bucket))
+		if s.bucket == "" || g.bucket == "" || d.bucket == "" {
+			c.Unknown("C27.R1", "store bucket", w.Pos(g.pos), "the bucket name is not a constant at every accessor")
+		} else {
+			c.Decide(s.bucket == g.bucket && g.bucket == d.bucket, "C27.R1", "store bucket", w.Pos(g.pos),
+				fmt.Sprintf("Set/Get/Delete use bucket %q", g.bucket),
+				fmt.Sprintf("bucket names differ: SetRate %q, GetRate %q, DeleteRate %q", s.bucket, g.bucket, d.bucket))
+		}
 		if s.valVerb == "" || g.valVerb == "" {
 			c.Unknown("C27.R1", "store value encoding", w.Pos(g.pos), "fmt.Appendf / fmt.Sscanf pair not found")
 		} else {
@@ -706,9 +936,11 @@ func (e *c27Env) r1() {
 		if n == 0 {
 			c.Unknown("C27.R1", w.FuncName(fn)+" result", w.Pos(fn.Pos()), "no constructed rate is returned")
 		} else {
-			c.Decide(okAll, "C27.R1", w.FuncName(fn)+" result", w.Pos(fn.Pos()),
-				"returns NewPremiumRate(asset, operation, NewPPM(decoded value))",
-				"the rate handed out is not NewPremiumRate(asset, operation, NewPPM(<decoded value>)) with this call's parameters")
+			if okAll {
+				c.OK("C27.R1", w.FuncName(fn)+" result", w.Pos(fn.Pos()), "returns NewPremiumRate(asset, operation, NewPPM(decoded value))")
+			} else {
+				c.Unknown("C27.R1", w.FuncName(fn)+" result", w.Pos(fn.Pos()), "cannot establish that the rate handed out is NewPremiumRate(asset, operation, NewPPM(<decoded value>)) with this call's parameters")
+			}
 		}
 	}
 
@@ -722,34 +954,123 @@ func (e *c27Env) r1() {
 		} else {
 			g, p := gr[0], pc[0]
 			a := g.Call.Args
-			c.Decide(len(a) == 4 && e.isParam(a[0], fn, 0) && e.isParam(a[1], fn, 1) && e.isParam(a[2], fn, 2) && e.isParam(a[3], fn, 3),
-				"C27.R1", name+" resolver arguments", w.Pos(g.Pos()),
+			e.argOrder("C27.R1", name+" resolver arguments", w.Pos(g.Pos()), fn, a, []int{0, 1, 2, 3},
 				"GetRate(peerID, asset, operation) in parameter order",
-				"Setting.Compute does not resolve the rate for (peerID, asset, operation) in that order")
+				"Setting.Compute does not resolve the rate for this call's (peerID, asset, operation)")
 			// receiver of PPM.Compute <- PremiumRatePPM(<rate of g>), amount <- param#4
 			rs := w.Sources(p.Call.Args[0], an.FlowOpts{ThroughCalls: map[string]bool{"func:(*premium.PremiumRate).PremiumRatePPM": true}})
 			recvOK := len(rs.Leaves) == 1 && c27LeafIsCall(rs.Leaves[0], g, 0) && rs.Ops["via:func:(*premium.PremiumRate).PremiumRatePPM"]
-			c.Decide(recvOK && e.isParam(p.Call.Args[1], fn, 4), "C27.R1", name+" arithmetic operands", w.Pos(p.Pos()),
-				"PPM.Compute runs on the resolved rate with the amount parameter",
-				"PPM.Compute is not applied to (resolved rate, amtSat)")
+			if recvOK && e.isParam(p.Call.Args[1], fn, 4) {
+				c.OK("C27.R1", name+" arithmetic operands", w.Pos(p.Pos()), "PPM.Compute runs on the resolved rate with the amount parameter")
+			} else {
+				c.Unknown("C27.R1", name+" arithmetic operands", w.Pos(p.Pos()), "cannot establish that PPM.Compute is applied to (resolved rate, amtSat)")
+			}
 			okE, _ := an.OkEdges(g)
 			for _, r := range an.Returns(fn) {
-				vs := w.Sources(r.Results[0], an.FlowOpts{})
-				es := w.Sources(r.Results[1], an.FlowOpts{})
-				isVal := len(vs.Leaves) == 1 && c27LeafIsCall(vs.Leaves[0], p, 0)
-				switch {
-				case isVal:
-					c.Decide(c27EdgesDominate(okE, r.Block()), "C27.R1", name+" value return", w.Pos(r.Pos()),
-						"premium returned on the err==nil edge of GetRate", "the premium is computed although GetRate's error was not tested")
-				case vs.OnlyFrom(func(l an.Src) bool { return l.Kind == "const" }):
-					c.Decide(es.OnlyFrom(func(l an.Src) bool { return c27LeafIsCall(l, g, 1) }), "C27.R1", name+" error return", w.Pos(r.Pos()),
-						"resolver error is propagated", "a constant premium is returned without the resolver's error")
-				default:
-					c.Unknown("C27.R1", name+" return", w.Pos(r.Pos()), "returned premium has sources "+strings.Join(vs.Names(), ", "))
+				if len(r.Results) != 2 {
+					continue
+				}
+				for _, rc := range c27ExpandReturn(r) {
+					vs := w.Sources(rc.vals[0], an.FlowOpts{})
+					es := w.Sources(rc.vals[1], an.FlowOpts{})
+					isVal := len(vs.Leaves) == 1 && c27LeafIsCall(vs.Leaves[0], p, 0)
+					switch {
+					case isVal && rc.domAt(okE):
+						c.OK("C27.R1", name+" value return", w.Pos(r.Pos()), "premium returned on the err==nil edge of GetRate")
+					case isVal && e.uninterpretedGuard(rc, g) != "":
+						c.Unknown("C27.R1", name+" value return", w.Pos(r.Pos()), "the premium is returned under the predicate "+e.uninterpretedGuard(rc, g)+", which the rule does not interpret")
+					case isVal:
+						c.Bad("C27.R1", name+" value return", w.Pos(r.Pos()), "the premium is computed although GetRate's error was not tested")
+					case vs.OnlyFrom(func(l an.Src) bool { return l.Kind == "const" }):
+						hasNil := false
+						for _, l := range es.Leaves {
+							if l.Kind == "zero" {
+								hasNil = true
+							}
+						}
+						switch {
+						case len(es.Leaves) > 0 && es.OnlyFrom(func(l an.Src) bool { return l.Kind == "call" }):
+							c.OK("C27.R1", name+" error return", w.Pos(r.Pos()), "a constant premium is returned only together with an error value")
+						case hasNil:
+							c.Bad("C27.R1", name+" error return", w.Pos(r.Pos()), "a constant premium is returned with a nil error")
+						default:
+							c.Unknown("C27.R1", name+" error return", w.Pos(r.Pos()), "cannot identify the error returned with a constant premium: "+strings.Join(es.Names(), ", "))
+						}
+					default:
+						c.Unknown("C27.R1", name+" return", w.Pos(r.Pos()), "returned premium has sources "+strings.Join(vs.Names(), ", "))
+					}
 				}
 			}
 		}
 	}
+}
+
+// keyExpr resolves the expression a bucket key is built from: one fmt.Sprintf,
+// either at the accessor or inside an in-module helper whose parameters are
+// bound to the helper call's arguments. It returns the format constant and the
+// component values in the accessor's frame.
+func (e *c27Env) keyExpr(v ssa.Value, depth int) (format string, comps []ssa.Value, at *ssa.Call, why string) {
+	w := e.w
+	ks := w.Sources(v, an.FlowOpts{})
+	if len(ks.Leaves) != 1 || ks.Leaves[0].Kind != "call" || ks.Leaves[0].Call == nil {
+		return "", nil, nil, "key is not the result of one call: " + strings.Join(ks.Names(), ", ")
+	}
+	call := ks.Leaves[0].Call
+	inf := w.Info(call)
+	if inf.Name == "func:fmt.Sprintf" {
+		f, okF := an.ConstString(call.Call.Args[0])
+		va := c27Varargs(call)
+		if !okF || va == nil {
+			return "", nil, nil, "key format is not a constant with a literal argument list"
+		}
+		return f, va, call, ""
+	}
+	if inf.Static == nil || !w.InModule(inf.Static) || inf.Static.Blocks == nil || depth >= 2 {
+		return "", nil, nil, "key is built by " + inf.Name + ", which is not fmt.Sprintf or an in-module key helper"
+	}
+	callee := inf.Static
+	first := true
+	for _, r := range an.Returns(callee) {
+		if len(r.Results) != 1 {
+			return "", nil, nil, "key helper " + inf.Name + " has an unexpected result arity"
+		}
+		f, cs, _, why := e.keyExpr(r.Results[0], depth+1)
+		if why != "" {
+			return "", nil, nil, "in key helper " + inf.Name + ": " + why
+		}
+		// bind the helper's parameters to this call's arguments
+		bound := make([]ssa.Value, len(cs))
+		for i, cv := range cs {
+			if _, isConst := c27Strip(cv).(*ssa.Const); isConst {
+				bound[i] = cv
+				continue
+			}
+			for pi := range callee.Params {
+				if e.isParam(cv, callee, pi) && pi < len(call.Call.Args) {
+					bound[i] = call.Call.Args[pi]
+				}
+			}
+			if bound[i] == nil {
+				return "", nil, nil, "key helper " + inf.Name + " builds a key component from something other than its parameters"
+			}
+		}
+		if first {
+			format, comps, first = f, bound, false
+			continue
+		}
+		if f != format || len(bound) != len(comps) {
+			return "", nil, nil, "key helper " + inf.Name + " builds different keys on different paths"
+		}
+		for i := range bound {
+			if bound[i] != comps[i] {
+				return "", nil, nil, "key helper " + inf.Name + " builds different keys on different paths"
+			}
+		}
+	}
+	if first {
+		return "", nil, nil, "key helper " + inf.Name + " never returns"
+	}
+	return format, comps, call, ""
 }
 
 // keyComponent checks how a key component is derived inside a store method.
@@ -933,6 +1254,62 @@ func c27LiquidFact(f an.Fact) int {
 	return 0
 }
 
+// c27Alt is one constant a call argument may hold together with the facts that
+// hold whenever that constant is the one selected.
+type c27Alt struct {
+	val   int64
+	facts []an.Fact
+}
+
+// edgeFacts: the facts of the conditional edge pred -> to (none for a jump).
+func (e *c27Env) edgeFacts(pred, to *ssa.BasicBlock) []an.Fact {
+	if len(pred.Succs) != 2 || pred.Succs[0] == pred.Succs[1] {
+		return nil
+	}
+	var out []an.Fact
+	for _, f := range e.w.Facts(pred.Parent()) {
+		if f.Edge.From == pred && f.Edge.To() == to {
+			out = append(out, f)
+		}
+	}
+	return out
+}
+
+// constAlts expands a constant or a phi of constants ("value selected into a
+// local") into (constant, facts at the selecting predecessor) pairs.
+func (e *c27Env) constAlts(v ssa.Value, depth int) ([]c27Alt, bool) {
+	v = c27Strip(v)
+	switch x := v.(type) {
+	case *ssa.Const:
+		k, ok := an.ConstInt(x)
+		if !ok {
+			return nil, false
+		}
+		return []c27Alt{{val: k}}, true
+	case *ssa.Phi:
+		if depth > 3 {
+			return nil, false
+		}
+		var out []c27Alt
+		for i, ed := range x.Edges {
+			if i >= len(x.Block().Preds) {
+				return nil, false
+			}
+			pred := x.Block().Preds[i]
+			sub, ok := e.constAlts(ed, depth+1)
+			if !ok {
+				return nil, false
+			}
+			facts := append(append([]an.Fact{}, e.w.FactsDominatingBlock(pred)...), e.edgeFacts(pred, x.Block())...)
+			for _, s := range sub {
+				out = append(out, c27Alt{val: s.val, facts: append(append([]an.Fact{}, facts...), s.facts...)})
+			}
+		}
+		return out, len(out) > 0
+	}
+	return nil, false
+}
+
 func (e *c27Env) r3charge() {
 	c, w := e.c, e.w
 	const computeName = "func:(*premium.Setting).Compute"
@@ -953,7 +1330,6 @@ func (e *c27Env) r3charge() {
 			byCall[call] = s
 		}
 	}
-	c.AtLeast("C27.R3", "Setting.Compute call sites outside package premium", len(sites), 8)
 
 	// (a) who writes the Premium fields
 	nW := 0
@@ -968,52 +1344,61 @@ func (e *c27Env) r3charge() {
 			}
 			nW++
 			cons := w.FuncName(fn) + " store " + fld.key
-			ss := w.Sources(st.Val, an.FlowOpts{})
-			bad := ""
+			// look through in-module helpers that hand the computed premium back
+			ss := w.Sources(st.Val, an.FlowOpts{IntoCallees: true, StopAt: map[string]bool{computeName: true}})
+			bad, unknown := "", ""
 			for _, l := range ss.Leaves {
 				switch {
 				case l.Kind == "call" && l.Call != nil && w.Info(l.Call).Name == computeName && l.Idx == 0:
 					if s := byCall[l.Call]; s != nil {
 						if s.dir != "" && s.dir != fld.dir {
-							bad = "one Compute result is used for both directions"
+							unknown = "one Compute result is used for both directions"
 						}
 						s.dir = fld.dir
 					}
 				case l.Kind == "zero":
 					// `var premiumValue int64` before the branches
+				case l.Kind == "const" && l.Name == "0":
+					// error path of a helper that returns (0, err)
+				case l.Kind == "const":
+					bad = "a constant premium " + l.Name
 				default:
-					bad = "value comes from " + l.String()
+					unknown = "value comes from " + l.String()
 				}
 			}
 			if len(ss.Leaves) == 0 {
-				bad = "no source"
+				unknown = "no source"
 			}
-			c.Decide(bad == "", "C27.R3", cons, w.Pos(st.Pos()),
-				"the premium sent to the peer is the result of Setting.Compute",
-				"the premium put into the agreement is not (only) the result of Setting.Compute: "+bad)
+			switch {
+			case bad != "":
+				c.Bad("C27.R3", cons, w.Pos(st.Pos()), "the premium put into the agreement is not the result of Setting.Compute: "+bad)
+			case unknown != "":
+				c.Unknown("C27.R3", cons, w.Pos(st.Pos()), "cannot trace the premium put into the agreement to Setting.Compute: "+unknown)
+			default:
+				c.OK("C27.R3", cons, w.Pos(st.Pos()), "the premium sent to the peer is the result of Setting.Compute")
+			}
 		}
 	}
 	c.AtLeast("C27.R3", "stores to the agreement Premium fields", nW, 2)
 
-	// (b) every call site
+	// (b) every call site, per (asset, operation) constant it can be reached with
+	nInst := 0
 	for _, s := range sites {
 		a := s.call.Call.Args
-		cons := w.FuncName(s.fn) + " Setting.Compute"
+		cons0 := w.FuncName(s.fn) + " Setting.Compute"
 		pos := w.Pos(s.call.Pos())
 		if len(a) != 5 {
-			c.Unknown("C27.R3", cons, pos, "unexpected argument count")
+			nInst++
+			c.Unknown("C27.R3", cons0, pos, "unexpected argument count")
 			continue
 		}
-		av, okA := an.ConstInt(a[2])
-		ov, okO := an.ConstInt(a[3])
-		_, cA := c27Strip(a[2]).(*ssa.Const)
-		_, cO := c27Strip(a[3]).(*ssa.Const)
-		if !okA || !okO || !cA || !cO || e.assets[av] == "" || e.ops[ov] == "" {
-			c.Unknown("C27.R3", cons, pos, "asset / operation are not enum constants at the call: "+w.Term(a[2])+", "+w.Term(a[3]))
+		assetAlts, okA := e.constAlts(a[2], 0)
+		opAlts, okO := e.constAlts(a[3], 0)
+		if !okA || !okO {
+			nInst++
+			c.Unknown("C27.R3", cons0, pos, "asset / operation are not enum constants (or a selection between enum constants) at the call: "+w.Term(a[2])+", "+w.Term(a[3]))
 			continue
 		}
-		asset, op := e.assets[av], e.ops[ov]
-		cons = fmt.Sprintf("%s(%s,%s)", cons, asset, op)
 		// direction: from the agreement field the result is stored to, else from
 		// the request message type the amount is read from
 		amt := w.Sources(a[4], an.FlowOpts{})
@@ -1032,73 +1417,93 @@ func (e *c27Env) r3charge() {
 				}
 			}
 		}
-		if dir == "" || dir == "?" {
-			c.Unknown("C27.R3", cons, pos, "cannot tell which swap direction this premium is for (result not stored to an agreement, amount not read from a request message)")
-			continue
-		}
-		if dir != op {
-			c.Bad("C27.R3", cons, pos, fmt.Sprintf("the premium for a %s message is computed with the %s rate: the peer is charged a rate other than the advertised one", dir, op))
-			continue
-		}
-		// chain
-		liquid := 0
-		for _, f := range w.FactsDominating(s.call) {
-			if k := c27LiquidFact(f); k != 0 {
-				if liquid != 0 && liquid != k {
-					liquid = 2
-					break
+		callFacts := w.FactsDominating(s.call)
+		seenAsset := map[string]bool{}
+		for _, aa := range assetAlts {
+			for _, oa := range opAlts {
+				if e.assets[aa.val] == "" || e.ops[oa.val] == "" {
+					nInst++
+					c.Unknown("C27.R3", cons0, pos, fmt.Sprintf("argument value %d/%d is not one of the asset / operation enum constants", aa.val, oa.val))
+					continue
 				}
-				liquid = k
-			}
-		}
-		facts := an.DescribeFacts(w.FactsDominating(s.call))
-		switch {
-		case liquid == 0 || liquid == 2:
-			c.Unknown("C27.R3", cons, pos, "no recognised Liquid/Bitcoin test dominates the call; facts: "+facts)
-			continue
-		case (liquid == 1) != (asset == "LBTC"):
-			c.Bad("C27.R3", cons, pos, fmt.Sprintf("asset %s is charged on the branch where the swap is%s on Liquid (facts: %s)", asset, map[bool]string{true: "", false: " not"}[liquid == 1], facts))
-			continue
-		}
-		// amount and peer
-		amtOK := len(amt.Leaves) > 0 && amt.OnlyFrom(func(l an.Src) bool {
-			return (l.Kind == "call" && l.Name == "func:(*swap.SwapData).GetAmount#0") ||
-				(l.Kind == "field" && strings.HasSuffix(l.Name, "Swap"+strings.TrimPrefix(dir, "Swap")+"RequestMessage.Amount"))
-		})
-		peer := w.Sources(a[1], an.FlowOpts{})
-		peerOK := len(peer.Leaves) > 0 && peer.OnlyFrom(func(l an.Src) bool {
-			if l.Kind == "field" {
-				return l.Name == "SwapData.PeerNodeId"
-			}
-			// the handler's peer parameter: the only string parameter of the handler
-			if p, ok := l.Val.(*ssa.Parameter); ok && l.Kind == "param" && p.Parent() == s.fn {
-				n := 0
-				for _, q := range s.fn.Params {
-					if b, ok := q.Type().Underlying().(*types.Basic); ok && b.Kind() == types.String {
-						n++
+				asset, op := e.assets[aa.val], e.ops[oa.val]
+				if !seenAsset[asset+op] {
+					seenAsset[asset+op] = true
+					nInst++
+				}
+				cons := fmt.Sprintf("%s(%s,%s)", cons0, asset, op)
+				if dir == "" || dir == "?" {
+					c.Unknown("C27.R3", cons, pos, "cannot tell which swap direction this premium is for (result not stored to an agreement, amount not read from a request message)")
+					continue
+				}
+				if dir != op {
+					c.Bad("C27.R3", cons, pos, fmt.Sprintf("the premium for a %s message is computed with the %s rate: the peer is charged a rate other than the advertised one", dir, op))
+					continue
+				}
+				// chain
+				facts := append(append(append([]an.Fact{}, callFacts...), aa.facts...), oa.facts...)
+				liquid := 0
+				for _, f := range facts {
+					if k := c27LiquidFact(f); k != 0 {
+						if liquid != 0 && liquid != k {
+							liquid = 2
+							break
+						}
+						liquid = k
 					}
 				}
-				return n == 1
+				desc := an.DescribeFacts(facts)
+				switch {
+				case liquid == 0 || liquid == 2:
+					c.Unknown("C27.R3", cons, pos, "no recognised Liquid/Bitcoin test holds where this asset is selected; facts: "+desc)
+					continue
+				case (liquid == 1) != (asset == "LBTC"):
+					c.Bad("C27.R3", cons, pos, fmt.Sprintf("asset %s is charged on the branch where the swap is%s on Liquid (facts: %s)", asset, map[bool]string{true: "", false: " not"}[liquid == 1], desc))
+					continue
+				}
+				// amount and peer
+				amtOK := len(amt.Leaves) > 0 && amt.OnlyFrom(func(l an.Src) bool {
+					return (l.Kind == "call" && l.Name == "func:(*swap.SwapData).GetAmount#0") ||
+						(l.Kind == "field" && strings.HasSuffix(l.Name, "Swap"+strings.TrimPrefix(dir, "Swap")+"RequestMessage.Amount"))
+				})
+				peer := w.Sources(a[1], an.FlowOpts{})
+				peerOK := len(peer.Leaves) > 0 && peer.OnlyFrom(func(l an.Src) bool {
+					if l.Kind == "field" {
+						return l.Name == "SwapData.PeerNodeId"
+					}
+					// the handler's peer parameter: the only string parameter of the handler
+					if p, ok := l.Val.(*ssa.Parameter); ok && l.Kind == "param" && p.Parent() == s.fn {
+						n := 0
+						for _, q := range s.fn.Params {
+							if b, ok := q.Type().Underlying().(*types.Basic); ok && b.Kind() == types.String {
+								n++
+							}
+						}
+						return n == 1
+					}
+					return false
+				})
+				definitelyWrong := func(ss *an.SrcSet) bool {
+					// only constants / message or swap-data fields: nothing a refactoring could hide behind
+					return len(ss.Leaves) > 0 && ss.OnlyFrom(func(l an.Src) bool { return l.Kind == "const" || l.Kind == "zero" || l.Kind == "field" })
+				}
+				switch {
+				case !amtOK && definitelyWrong(amt):
+					c.Bad("C27.R3", cons, pos, "the amount the premium is computed on is not the swap amount: "+strings.Join(amt.Names(), ", "))
+				case !amtOK:
+					c.Unknown("C27.R3", cons, pos, "cannot identify the amount argument as the swap amount: "+strings.Join(amt.Names(), ", "))
+				case !peerOK && definitelyWrong(peer):
+					c.Bad("C27.R3", cons, pos, "the rate is not resolved for the swap's peer: "+strings.Join(peer.Names(), ", "))
+				case !peerOK:
+					c.Unknown("C27.R3", cons, pos, "cannot identify the peer argument as the swap's peer: "+strings.Join(peer.Names(), ", "))
+				default:
+					c.OK("C27.R3", cons, pos, fmt.Sprintf("%s/%s rate of the swap peer on the swap amount, on the %s branch", asset, op, map[bool]string{true: "Liquid", false: "Bitcoin"}[liquid == 1]))
+				}
 			}
-			return false
-		})
-		definitelyWrong := func(ss *an.SrcSet) bool {
-			// only constants / message or swap-data fields: nothing a refactoring could hide behind
-			return len(ss.Leaves) > 0 && ss.OnlyFrom(func(l an.Src) bool { return l.Kind == "const" || l.Kind == "zero" || l.Kind == "field" })
-		}
-		switch {
-		case !amtOK && definitelyWrong(amt):
-			c.Bad("C27.R3", cons, pos, "the amount the premium is computed on is not the swap amount: "+strings.Join(amt.Names(), ", "))
-		case !amtOK:
-			c.Unknown("C27.R3", cons, pos, "cannot identify the amount argument as the swap amount: "+strings.Join(amt.Names(), ", "))
-		case !peerOK && definitelyWrong(peer):
-			c.Bad("C27.R3", cons, pos, "the rate is not resolved for the swap's peer: "+strings.Join(peer.Names(), ", "))
-		case !peerOK:
-			c.Unknown("C27.R3", cons, pos, "cannot identify the peer argument as the swap's peer: "+strings.Join(peer.Names(), ", "))
-		default:
-			c.OK("C27.R3", cons, pos, fmt.Sprintf("%s/%s rate of the swap peer on the swap amount, on the %s branch", asset, op, map[bool]string{true: "Liquid", false: "Bitcoin"}[liquid == 1]))
 		}
 	}
+	// 2 assets x 2 directions x (request handler, agreement action) on the pinned tree
+	c.AtLeast("C27.R3", "(Setting.Compute call site, asset, operation) instances outside package premium", nInst, 8)
 }
 
 // ---- R3 advertising ------------------------------------------------------------------------------------
@@ -1210,9 +1615,31 @@ func (e *c27Env) r3advertise() {
 	}
 
 	// 3. localCapabilityForPeer: pairs at each rate argument of the constructor call
-	adv := e.fn("peersync", "(*PeerSync).localCapabilityForPeer")
+	// the function that builds the advertised capability: it asks PeerGuard.PremiumRate
+	// and calls the capability constructor (localCapabilityForPeer on the pinned tree)
+	var adv *ssa.Function
+	for _, f := range prodFuncs(w) {
+		if w.FnRel(f) != "peersync" {
+			continue
+		}
+		if len(e.callsTo(f, "func:peersync.NewPeerCapability")) > 0 {
+			for _, ci := range an.Calls(f) {
+				if w.Info(ci).Name == "iface:peersync.PeerGuard.PremiumRate" {
+					adv = f
+				}
+			}
+		}
+	}
 	if adv == nil {
+		c.Anchor("no production function in peersync both asks PeerGuard.PremiumRate and calls NewPeerCapability")
 		return
+	}
+	for _, ci := range an.Calls(adv) {
+		if cal := w.Info(ci).Static; cal != nil {
+			if _, _, isTbl := e.tableDefault(cal); isTbl {
+				c.OK("C27.R3", w.FuncName(cal), w.Pos(cal.Pos()), "built-in table indexed [asset][operation]")
+			}
+		}
 	}
 	nAdv := 0
 	for _, call := range e.callsTo(adv, "func:peersync.NewPeerCapability") {
@@ -1252,24 +1679,49 @@ func (e *c27Env) r3advertise() {
 	c.AtLeast("C27.R3", "advertised rate arguments", nAdv, 4)
 
 	// the invoke resolves to peerGuard.PremiumRate only
-	guardImpl := e.fn("peersync", "(*peerGuard).PremiumRate")
-	if n := w.CG().Nodes[adv]; n != nil && guardImpl != nil {
+	var guardImpl *ssa.Function
+	if n := w.CG().Nodes[adv]; n != nil {
+		impls := map[*ssa.Function]bool{}
 		for _, out := range n.Out {
 			if out.Site == nil || w.Info(out.Site).Name != "iface:peersync.PeerGuard.PremiumRate" {
 				continue
 			}
-			if an.IsTestSupport(w.FnRel(out.Callee.Func)) {
+			if an.IsTestSupport(w.FnRel(out.Callee.Func)) || out.Callee.Func.Blocks == nil {
 				continue
 			}
-			c.Decide(out.Callee.Func == guardImpl, "C27.R3", "PeerGuard.PremiumRate implementation "+w.FuncName(out.Callee.Func), w.Pos(out.Callee.Func.Pos()),
-				"the advertised rate is resolved by peerGuard.PremiumRate", "a second production implementation of PeerGuard.PremiumRate can answer the advertising call")
+			impls[out.Callee.Func] = true
 		}
+		var fs []*ssa.Function
+		for f := range impls {
+			fs = append(fs, f)
+		}
+		sort.Slice(fs, func(i, j int) bool { return w.FuncName(fs[i]) < w.FuncName(fs[j]) })
+		for _, f := range fs {
+			// the implementation the rule follows: the one that asks Setting.GetRate (directly or not)
+			if guardImpl == nil && (len(fs) == 1 || w.Summary(f).HasEffect("func:(*premium.Setting).GetRate")) {
+				guardImpl = f
+				c.OK("C27.R3", "PeerGuard.PremiumRate implementation "+w.FuncName(f), w.Pos(f.Pos()), "the advertised rate is resolved by this implementation")
+			} else {
+				c.Unknown("C27.R3", "PeerGuard.PremiumRate implementation "+w.FuncName(f), w.Pos(f.Pos()), "a second production implementation of PeerGuard.PremiumRate can answer the advertising call; the rule follows only one")
+			}
+		}
+	}
+	if guardImpl == nil {
+		c.Anchor("no production implementation of PeerGuard.PremiumRate is reachable from the advertising call")
 	}
 
 	// 4. snapshot: field -> JSON name, value <- ppmValue(GetPremiumRate(pair))
 	if fn := e.fn("peersync", "SnapshotFromCapability"); fn != nil {
+		// pass-throughs of a rate's ppm value: PPM.Value and in-module one-liners around it (ppmValue)
+		passThrough := map[string]bool{"func:(*premium.PPM).Value": true}
+		for _, ci := range an.Calls(fn) {
+			if cal := w.Info(ci).Static; cal != nil && w.InModule(cal) && e.ppmPassThrough(cal) {
+				passThrough[w.Info(ci).Name] = true
+				c.OK("C27.R3", w.FuncName(cal), w.Pos(cal.Pos()), "returns the ppm of its argument (0 for nil)")
+			}
+		}
 		st := snapT.Underlying().(*types.Struct)
-		nS := 0
+		nS, unresolved := 0, 0
 		seen := map[c27Pair]bool{}
 		for _, b := range fn.Blocks {
 			for _, in := range b.Instrs {
@@ -1281,22 +1733,31 @@ func (e *c27Env) r3advertise() {
 				if !ok || an.NamedOf(fa.X.Type()) != snapT {
 					continue
 				}
-				ss := w.Sources(sto.Val, an.FlowOpts{ThroughCalls: map[string]bool{"func:peersync.ppmValue": true}})
+				ss := w.Sources(sto.Val, an.FlowOpts{ThroughCalls: passThrough})
 				var gp *ssa.Call
 				for _, l := range ss.Leaves {
 					if l.Kind == "call" && l.Call != nil && w.Info(l.Call).Name == "func:(*peersync.PeerCapability).GetPremiumRate" {
 						gp = l.Call
 					}
 				}
-				if gp == nil {
-					continue
-				}
-				nS++
 				fname := st.Field(fa.Field).Name()
 				cons := "snapshot field " + fname
 				pos := w.Pos(sto.Pos())
+				if gp == nil {
+					wire := strings.Split(reflect.StructTag(st.Tag(fa.Field)).Get("json"), ",")[0]
+					for _, wn := range c27WireNames {
+						if wn == wire {
+							nS++
+							unresolved++
+							c.Unknown("C27.R3", cons, pos, "a rate field of the wire format is not filled with ppmValue(capability.GetPremiumRate(<const>, <const>)): "+strings.Join(ss.Names(), ", "))
+						}
+					}
+					continue
+				}
+				nS++
 				p, ok := e.pairAt(gp.Call.Args, 1, 2)
 				if !ok || len(ss.Leaves) != 1 || !e.isParam(gp.Call.Args[0], fn, 0) {
+					unresolved++
 					c.Unknown("C27.R3", cons, pos, "not ppmValue(capability.GetPremiumRate(<const>, <const>)): "+strings.Join(ss.Names(), ", "))
 					continue
 				}
@@ -1309,45 +1770,24 @@ func (e *c27Env) r3advertise() {
 			}
 		}
 		c.AtLeast("C27.R3", "rate fields of the snapshot", nS, 4)
-		c.Decide(len(seen) == 4, "C27.R3", "snapshot covers the four pairs", w.Pos(fn.Pos()), "all four (asset,operation) pairs are sent", fmt.Sprintf("only %d distinct pairs are sent", len(seen)))
-	}
-	// ppmValue is a pass-through of PPM.ppmValue
-	if fn := e.fn("peersync", "ppmValue"); fn != nil {
-		okAll := true
-		for _, r := range an.Returns(fn) {
-			v := c27Strip(r.Results[0])
-			if _, isC := v.(*ssa.Const); isC {
-				if k, _ := an.ConstInt(v); k != 0 {
-					okAll = false
-				}
-				continue
-			}
-			call, ok := v.(*ssa.Call)
-			if !ok || w.Info(call).Name != "func:(*premium.PPM).Value" || !e.isParam(call.Call.Args[0], fn, 0) {
-				okAll = false
-			}
+		switch {
+		case len(seen) == 4:
+			c.OK("C27.R3", "snapshot covers the four pairs", w.Pos(fn.Pos()), "all four (asset,operation) pairs are sent")
+		case unresolved > 0:
+			c.Unknown("C27.R3", "snapshot covers the four pairs", w.Pos(fn.Pos()), fmt.Sprintf("%d pairs resolved, %d rate fields not understood", len(seen), unresolved))
+		default:
+			c.Bad("C27.R3", "snapshot covers the four pairs", w.Pos(fn.Pos()), fmt.Sprintf("only %d distinct pairs are sent", len(seen)))
 		}
-		val := e.fn("premium", "(*PPM).Value")
-		if val != nil {
-			ss := &an.SrcSet{}
-			for _, r := range an.Returns(val) {
-				s := w.Sources(r.Results[0], an.FlowOpts{})
-				ss.Leaves = append(ss.Leaves, s.Leaves...)
-			}
-			if !ss.OnlyFrom(func(l an.Src) bool {
-				return (l.Kind == "field" && l.Name == "PPM.ppmValue") || (l.Kind == "const" && l.Name == "0")
-			}) || !ss.Has("field", "PPM.ppmValue") {
-				okAll = false
-			}
-		}
-		c.Decide(okAll, "C27.R3", "peersync.ppmValue", w.Pos(fn.Pos()), "ppmValue(rate) is rate.ppmValue (0 for nil)", "ppmValue does not return the ppm of its argument")
 	}
-
 	// 5. peerGuard.PremiumRate -> Setting.GetRate(peer, asset, op)
 	if guardImpl != nil {
 		fn := guardImpl
 		name := w.FuncName(fn)
 		gr := e.callsTo(fn, "func:(*premium.Setting).GetRate")
+		if len(gr) == 0 && w.Summary(fn).HasEffect("func:(*premium.Setting).GetRate") {
+			c.Unknown("C27.R3", name+" resolver arguments", w.Pos(fn.Pos()), "Setting.GetRate is called from a helper of peerGuard.PremiumRate; the return analysis does not follow it")
+			return
+		}
 		if len(gr) == 0 {
 			c.Bad("C27.R3", name+" resolver arguments", w.Pos(fn.Pos()), "the advertised rate is not resolved through Setting.GetRate, the resolver Setting.Compute charges with")
 			return
@@ -1361,75 +1801,180 @@ func (e *c27Env) r3advertise() {
 		// receiver <- field peerGuard.premium ; peer <- param#1.String()
 		recv := w.Sources(a[0], an.FlowOpts{})
 		peer := w.Sources(a[1], an.FlowOpts{ThroughCalls: map[string]bool{"func:(peersync.PeerID).String": true}})
-		argsOK := len(a) == 4 && recv.OnlyFrom(func(l an.Src) bool { return l.Kind == "field" && l.Name == "peerGuard.premium" }) &&
+		argsOK := len(a) == 4 && recv.OnlyFrom(func(l an.Src) bool { return l.Kind == "field" && c27TypeName(l.Val.Type()) != "" }) && c27RootIsParam(w, recv, fn) &&
 			peer.OnlyFrom(func(l an.Src) bool { p, ok := l.Val.(*ssa.Parameter); return ok && p == fn.Params[1] }) &&
 			e.isParam(a[2], fn, 2) && e.isParam(a[3], fn, 3)
-		c.Decide(argsOK, "C27.R3", name+" resolver arguments", w.Pos(g.Pos()),
-			"peerGuard.premium.GetRate(peer, asset, operation) in parameter order",
-			"the advertised rate is not resolved as Setting.GetRate(peer, asset, operation) with this call's parameters in that order")
+		if argsOK {
+			c.OK("C27.R3", name+" resolver arguments", w.Pos(g.Pos()), "peerGuard.premium.GetRate(peer, asset, operation) in parameter order")
+		} else {
+			c.Unknown("C27.R3", name+" resolver arguments", w.Pos(g.Pos()), "cannot establish that the advertised rate is resolved as peerGuard.premium.GetRate(peer, asset, operation) with this call's parameters")
+		}
 		// returns
 		var excuse []an.Edge
 		for _, f := range w.Facts(fn) {
 			if !f.NonNum {
 				continue
 			}
+			// `no setting configured`: the receiver GetRate is called on is nil
+			if f.Rel == "==" && f.LV != nil && f.RV != nil {
+				for _, side := range [][2]ssa.Value{{f.LV, f.RV}, {f.RV, f.LV}} {
+					if an.IsNilConst(c27Strip(side[1])) {
+						ca, ra := w.FieldChain(c27Strip(side[0]))
+						cb, rb := w.FieldChain(c27Strip(a[0]))
+						if ca != "" && ca == cb && ra == rb {
+							excuse = append(excuse, f.Edge)
+						}
+					}
+				}
+			}
 			switch {
-			case an.EqIs(f, "==", "field:peerGuard.premium", "nil"),
-				an.EqIs(f, "!=", "call:func:(*premium.Setting).GetRate#1", "nil"),
+			case an.EqIs(f, "!=", "call:func:(*premium.Setting).GetRate#1", "nil"),
 				an.EqIs(f, "==", "call:func:(*premium.Setting).GetRate#0", "nil"),
 				an.EqIs(f, "==", "call:func:(*premium.PremiumRate).PremiumRatePPM", "nil"):
 				excuse = append(excuse, f.Edge)
 			}
 		}
-		nMain := 0
+		nMain, nNotUnderstood := 0, 0
 		for _, r := range an.Returns(fn) {
-			ss := w.Sources(r.Results[0], an.FlowOpts{ThroughCalls: map[string]bool{"func:(*premium.PremiumRate).PremiumRatePPM": true}})
-			pos := w.Pos(r.Pos())
-			if len(ss.Leaves) == 1 && c27LeafIsCall(ss.Leaves[0], g, 0) {
-				nMain++
-				c.OK("C27.R3", name+" resolved return", pos, "returns the ppm of the rate Setting.GetRate resolved")
+			if len(r.Results) != 1 {
 				continue
 			}
-			// a default: NewPPM(defaultPremiumRate(asset, operation)) on an excused edge only
-			def := true
-			for _, l := range ss.Leaves {
-				if l.Kind != "call" || l.Call == nil || w.Info(l.Call).Name != "func:premium.NewPPM" {
-					def = false
+			for _, rc := range c27ExpandReturn(r) {
+				ss := w.Sources(rc.vals[0], an.FlowOpts{ThroughCalls: map[string]bool{"func:(*premium.PremiumRate).PremiumRatePPM": true}})
+				pos := w.Pos(r.Pos())
+				if len(ss.Leaves) == 1 && c27LeafIsCall(ss.Leaves[0], g, 0) {
+					nMain++
+					c.OK("C27.R3", name+" resolved return", pos, "returns the ppm of the rate Setting.GetRate resolved")
 					continue
 				}
-				d, ok := c27Strip(l.Call.Call.Args[0]).(*ssa.Call)
-				if !ok || w.Info(d).Name != "func:peersync.defaultPremiumRate" || !e.isParam(d.Call.Args[0], fn, 2) || !e.isParam(d.Call.Args[1], fn, 3) {
-					def = false
+				// a default: NewPPM(defaultPremiumRate(asset, operation)) on an excused edge only
+				def := true
+				for _, l := range ss.Leaves {
+					if l.Kind != "call" || l.Call == nil || w.Info(l.Call).Name != "func:premium.NewPPM" {
+						def = false
+						continue
+					}
+					d, ok := c27Strip(l.Call.Call.Args[0]).(*ssa.Call)
+					if !ok {
+						def = false
+						continue
+					}
+					ai, oi, isTbl := e.tableDefault(w.Info(d).Static)
+					if !isTbl || !e.isParam(d.Call.Args[ai], fn, 2) || !e.isParam(d.Call.Args[oi], fn, 3) {
+						def = false
+					}
+				}
+				switch {
+				case !def || len(ss.Leaves) == 0:
+					nNotUnderstood++
+					c.Unknown("C27.R3", name+" other return", pos, "cannot identify the returned rate as the resolved one or as the built-in default for (asset, operation): "+strings.Join(ss.Names(), ", "))
+				case rc.domAt(excuse):
+					c.OK("C27.R3", name+" default return", pos, "built-in default only when no setting is configured, the resolver failed or returned nil")
+				case e.uninterpretedGuard(rc, g) != "":
+					nNotUnderstood++
+					c.Unknown("C27.R3", name+" default return", pos, "the built-in default is returned under the predicate "+e.uninterpretedGuard(rc, g)+", which the rule does not interpret")
+				default:
+					c.Bad("C27.R3", name+" default return", pos, "the built-in default is advertised on a path where the resolver succeeded: advertised rate differs from the charged one. Facts: "+an.DescribeFacts(e.factsAt(rc)))
 				}
 			}
-			switch {
-			case !def || len(ss.Leaves) == 0:
-				c.Bad("C27.R3", name+" other return", pos, "a rate that is neither the resolved one nor the built-in default for (asset, operation) is advertised: "+strings.Join(ss.Names(), ", "))
-			case c27EdgesDominate(excuse, r.Block()):
-				c.OK("C27.R3", name+" default return", pos, "built-in default only when no setting is configured, the resolver failed or returned nil")
-			default:
-				c.Bad("C27.R3", name+" default return", pos, "the built-in default is advertised on a path where the resolver succeeded: advertised rate differs from the charged one. Facts: "+an.DescribeFacts(w.FactsDominatingBlock(r.Block())))
-			}
 		}
-		c.Decide(nMain >= 1, "C27.R3", name+" resolved return exists", w.Pos(fn.Pos()), "some return hands out the resolved rate", "no return hands out the rate Setting.GetRate resolved")
+		switch {
+		case nMain >= 1:
+			c.OK("C27.R3", name+" resolved return exists", w.Pos(fn.Pos()), "some return hands out the resolved rate")
+		case nNotUnderstood > 0:
+			c.Unknown("C27.R3", name+" resolved return exists", w.Pos(fn.Pos()), "no return was identified as the resolved rate, and some returns were not understood")
+		default:
+			c.Bad("C27.R3", name+" resolved return exists", w.Pos(fn.Pos()), "no return hands out the rate Setting.GetRate resolved")
+		}
 		c.Note("C27.R3", name+" error fallback", w.Pos(g.Pos()), "when Setting.GetRate fails the built-in default is advertised while Setting.Compute refuses the swap with the error — advertised and charged rate are not compared on that edge")
 	}
-	// defaultPremiumRate reads table[asset][operation]
-	if fn := e.fn("peersync", "defaultPremiumRate"); fn != nil {
-		okAll, n := true, 0
-		for _, r := range an.Returns(fn) {
-			v := c27Strip(r.Results[0])
-			if _, isC := v.(*ssa.Const); isC {
+}
+
+// tableDefault: fn(asset, operation) answers premium.DefaultPremiumRate[asset][operation]
+// (or the constant 0 when the table has no entry); returns the parameter positions.
+func (e *c27Env) tableDefault(fn *ssa.Function) (assetIdx, opIdx int, ok bool) {
+	if fn == nil || !e.w.InModule(fn) || fn.Blocks == nil {
+		return 0, 0, false
+	}
+	assetIdx, opIdx = -1, -1
+	for i, p := range fn.Params {
+		switch c27TypeName(p.Type()) {
+		case "premium.AssetType":
+			assetIdx = i
+		case "premium.OperationType":
+			opIdx = i
+		}
+	}
+	if assetIdx < 0 || opIdx < 0 {
+		return 0, 0, false
+	}
+	n := 0
+	for _, r := range an.Returns(fn) {
+		if len(r.Results) != 1 {
+			return 0, 0, false
+		}
+		for _, rc := range c27ExpandReturn(r) {
+			v := c27Strip(rc.vals[0])
+			if cv, isC := v.(*ssa.Const); isC {
+				if k, isInt := an.ConstInt(cv); !isInt || k != 0 {
+					return 0, 0, false
+				}
 				continue
 			}
-			n++
-			ka, ko, ok := e.tableLookup(v)
-			if !ok || !e.isParam(ka, fn, 0) || !e.isParam(ko, fn, 1) {
-				okAll = false
+			ka, ko, isLookup := e.tableLookup(v)
+			if !isLookup || !e.isParam(ka, fn, assetIdx) || !e.isParam(ko, fn, opIdx) {
+				return 0, 0, false
 			}
+			n++
 		}
-		c.Decide(okAll && n >= 1, "C27.R3", w.FuncName(fn), w.Pos(fn.Pos()), "built-in table indexed [asset][operation]", "the default advertised rate is not premium.DefaultPremiumRate[asset][operation]")
 	}
+	return assetIdx, opIdx, n > 0
+}
+
+// ppmPassThrough: fn(rate *premium.PPM) int64 answers rate's ppm value (0 for nil).
+func (e *c27Env) ppmPassThrough(fn *ssa.Function) bool {
+	if fn == nil || fn.Blocks == nil || len(fn.Params) != 1 || c27TypeName(fn.Params[0].Type()) != "*premium.PPM" || fn.Signature.Results().Len() != 1 {
+		return false
+	}
+	n := 0
+	for _, r := range an.Returns(fn) {
+		for _, rc := range c27ExpandReturn(r) {
+			v := c27Strip(rc.vals[0])
+			if cv, isC := v.(*ssa.Const); isC {
+				if k, isInt := an.ConstInt(cv); !isInt || k != 0 {
+					return false
+				}
+				continue
+			}
+			ss := e.w.Sources(v, an.FlowOpts{IntoCallees: true})
+			if !ss.OnlyFrom(func(l an.Src) bool {
+				return (l.Kind == "field" && l.Name == "PPM.ppmValue") || (l.Kind == "const" && l.Name == "0")
+			}) || !ss.Has("field", "PPM.ppmValue") {
+				return false
+			}
+			// and it is the argument's ppm: a PPM.Value call on the parameter, or a load of its field
+			if call, isCall := v.(*ssa.Call); isCall {
+				if e.w.Info(call).Name != "func:(*premium.PPM).Value" || !e.isParam(call.Call.Args[0], fn, 0) {
+					return false
+				}
+			} else if _, root := e.w.FieldChain(v); root != ssa.Value(fn.Params[0]) {
+				return false
+			}
+			n++
+		}
+	}
+	return n > 0
+}
+
+// c27RootIsParam: every field leaf hangs off the receiver parameter of fn.
+func c27RootIsParam(w *an.World, ss *an.SrcSet, fn *ssa.Function) bool {
+	for _, l := range ss.Leaves {
+		_, root := w.FieldChain(l.Val)
+		if p, ok := root.(*ssa.Parameter); !ok || len(fn.Params) == 0 || p != fn.Params[0] {
+			return false
+		}
+	}
+	return len(ss.Leaves) > 0
 }
 
 func c27PairOf(arms map[c27Pair]string, fld string) string {
@@ -1475,14 +2020,16 @@ func (e *c27Env) advertisedPairs(v ssa.Value, fn *ssa.Function) (map[c27Pair]boo
 				out[p] = true
 			case "func:premium.NewPPM":
 				rec(x.Call.Args[0])
-			case "func:peersync.defaultPremiumRate":
-				p, ok := e.pairAt(x.Call.Args, 0, 1)
-				if !ok {
-					why = "defaultPremiumRate is not called with enum constants"
+			default:
+				if ai, oi, isTbl := e.tableDefault(w.Info(x).Static); isTbl {
+					p, ok := e.pairAt(x.Call.Args, ai, oi)
+					if !ok {
+						why = "the built-in default is not looked up with enum constants"
+						return
+					}
+					out[p] = true
 					return
 				}
-				out[p] = true
-			default:
 				why = "rate argument comes from " + w.Info(x).Name
 			}
 		default:
@@ -1502,19 +2049,41 @@ func (e *c27Env) r3wiring() {
 	c, w := e.c, e.w
 	// constructors store their Setting parameter into the slot
 	slots := []struct {
-		ctorRel, ctor string
-		field         string
+		ctorRel, ctor, role string
 	}{
-		{"swap", "NewSwapServices", "SwapServices.ps"},
-		{"peersync", "NewPeerGuard", "peerGuard.premium"},
+		{"swap", "NewSwapServices", "charging"},
+		{"peersync", "NewPeerGuard", "advertising"},
 	}
 	for _, s := range slots {
 		ctor := e.fn(s.ctorRel, s.ctor)
 		if ctor == nil {
 			continue
 		}
+		// the slot: the struct field the constructor stores its *premium.Setting parameter into
+		field := ""
+		for _, b := range ctor.Blocks {
+			for _, in := range b.Instrs {
+				st, ok := in.(*ssa.Store)
+				if !ok {
+					continue
+				}
+				fa, ok := st.Addr.(*ssa.FieldAddr)
+				if !ok {
+					continue
+				}
+				for i, p := range ctor.Params {
+					if c27TypeName(p.Type()) == "*premium.Setting" && e.isParam(st.Val, ctor, i) {
+						field = an.FieldName(fa.X.Type(), fa.Field)
+					}
+				}
+			}
+		}
+		if field == "" {
+			c.Unknown("C27.R3", "premium setting slot of "+w.FuncName(ctor), w.Pos(ctor.Pos()), "the constructor does not store its *premium.Setting parameter into a struct field")
+			continue
+		}
 		n := 0
-		for _, st := range w.FieldWriters(s.field) {
+		for _, st := range w.FieldWriters(field) {
 			fn := st.Parent()
 			if an.IsTestSupport(w.FnRel(fn)) {
 				continue
@@ -1529,13 +2098,13 @@ func (e *c27Env) r3wiring() {
 				}
 			}
 			if isCtorParam {
-				c.OK("C27.R3", "writer of "+s.field+" in "+w.FuncName(fn), w.Pos(st.Pos()), "slot is written by its constructor from the *premium.Setting parameter")
+				c.OK("C27.R3", "writer of "+field+" in "+w.FuncName(fn), w.Pos(st.Pos()), "slot is written by its constructor from the *premium.Setting parameter")
 			} else {
-				c.Unknown("C27.R3", "writer of "+s.field+" in "+w.FuncName(fn), w.Pos(st.Pos()),
-					"the premium setting used for "+map[string]string{"SwapServices.ps": "charging", "peerGuard.premium": "advertising"}[s.field]+" is (re)assigned outside its constructor: cannot decide that charging and advertising still share one resolver")
+				c.Unknown("C27.R3", "writer of "+field+" in "+w.FuncName(fn), w.Pos(st.Pos()),
+					"the premium setting used for "+s.role+" is (re)assigned outside its constructor: cannot decide that charging and advertising still share one resolver")
 			}
 		}
-		c.AtLeast("C27.R3", "writers of "+s.field, n, 1)
+		c.AtLeast("C27.R3", "writers of "+field, n, 1)
 	}
 	// NewPeerSync hands its Setting parameter to NewPeerGuard and keeps the guard
 	if fn := e.fn("peersync", "NewPeerSync"); fn != nil {
@@ -1549,8 +2118,11 @@ func (e *c27Env) r3wiring() {
 				}
 			}
 		}
-		c.Decide(okG, "C27.R3", w.FuncName(fn)+" guard construction", w.Pos(fn.Pos()),
-			"NewPeerGuard receives NewPeerSync's *premium.Setting parameter", "the guard that resolves advertised rates is not built from NewPeerSync's premium setting")
+		if okG {
+			c.OK("C27.R3", w.FuncName(fn)+" guard construction", w.Pos(fn.Pos()), "NewPeerGuard receives NewPeerSync's *premium.Setting parameter")
+		} else {
+			c.Unknown("C27.R3", w.FuncName(fn)+" guard construction", w.Pos(fn.Pos()), "cannot establish that the guard that resolves advertised rates is built from NewPeerSync's premium setting")
+		}
 		nG := 0
 		for _, st := range w.FieldWriters("PeerSync.guard") {
 			f := st.Parent()
@@ -1559,8 +2131,11 @@ func (e *c27Env) r3wiring() {
 			}
 			nG++
 			ss := w.Sources(st.Val, an.FlowOpts{})
-			c.Decide(f == fn && gcall != nil && len(ss.Leaves) == 1 && c27LeafIsCall(ss.Leaves[0], gcall, 0), "C27.R3", "writer of PeerSync.guard in "+w.FuncName(f), w.Pos(st.Pos()),
-				"PeerSync.guard is the guard built in NewPeerSync", "PeerSync.guard is assigned something other than the guard built from the premium setting")
+			if f == fn && gcall != nil && len(ss.Leaves) == 1 && c27LeafIsCall(ss.Leaves[0], gcall, 0) {
+				c.OK("C27.R3", "writer of PeerSync.guard in "+w.FuncName(f), w.Pos(st.Pos()), "PeerSync.guard is the guard built in NewPeerSync")
+			} else {
+				c.Unknown("C27.R3", "writer of PeerSync.guard in "+w.FuncName(f), w.Pos(st.Pos()), "cannot establish that PeerSync.guard is the guard built from the premium setting: "+strings.Join(ss.Names(), ", "))
+			}
 		}
 		c.AtLeast("C27.R3", "writers of PeerSync.guard", nG, 1)
 	}
@@ -1610,9 +2185,17 @@ func (e *c27Env) r3wiring() {
 		same := len(s1.Leaves) == 1 && len(s2.Leaves) == 1 && s1.Leaves[0].Kind == "call" && s1.Leaves[0].Call != nil &&
 			s1.Leaves[0].Call == s2.Leaves[0].Call && s1.Leaves[0].Idx == s2.Leaves[0].Idx &&
 			w.Info(s1.Leaves[0].Call).Name == "func:premium.NewSetting"
-		c.Decide(same, "C27.R3", cons, w.Pos(pv[0].Pos()),
-			"swap services and peer-sync receive the result of the same premium.NewSetting call",
-			fmt.Sprintf("swap services get %s, peer-sync gets %s: charging and advertising do not share one resolver", describe(s1), describe(s2)))
+		bothSettings := len(s1.Leaves) == 1 && len(s2.Leaves) == 1 && s1.Leaves[0].Kind == "call" && s2.Leaves[0].Kind == "call" &&
+			s1.Leaves[0].Call != nil && s2.Leaves[0].Call != nil &&
+			w.Info(s1.Leaves[0].Call).Name == "func:premium.NewSetting" && w.Info(s2.Leaves[0].Call).Name == "func:premium.NewSetting"
+		switch {
+		case same:
+			c.OK("C27.R3", cons, w.Pos(pv[0].Pos()), "swap services and peer-sync receive the result of the same premium.NewSetting call")
+		case bothSettings:
+			c.Bad("C27.R3", cons, w.Pos(pv[0].Pos()), fmt.Sprintf("swap services get %s, peer-sync gets %s: charging and advertising do not share one resolver", describe(s1), describe(s2)))
+		default:
+			c.Unknown("C27.R3", cons, w.Pos(pv[0].Pos()), fmt.Sprintf("cannot establish that swap services (%s) and peer-sync (%s) receive the same premium setting", describe(s1), describe(s2)))
+		}
 	}
 	c.AtLeast("C27.R3", "mains wiring the premium setting", nMain, 2)
 }
